@@ -44,10 +44,10 @@ def log(*a):
     print(*a, flush=True)
 
 
-def sh(cmd, cwd=None, timeout=None, out=None):
+def sh(cmd, cwd=None, timeout=None, out=None, mem_kb=None):
     """run a shell command under the per-process memory limit; returns (rc, seconds)"""
     t0 = time.time()
-    full = "ulimit -v %d; %s" % (MEM_KB, cmd)
+    full = "ulimit -v %d; %s" % (mem_kb or MEM_KB, cmd)
     f = open(out, "w") if out else subprocess.DEVNULL
     try:
         p = subprocess.run(["bash", "-c", full], cwd=cwd, env=ENV, stdout=f, stderr=subprocess.STDOUT,
@@ -91,11 +91,13 @@ def run_playback(prop, hs, tag):
         cmd = ("cargo kani --features %s --target-dir %s --harness gen::proofs_%s::%s --exact --output-format terse "
                "-Z unstable-options -Z stubbing --harness-timeout %ds -Z concrete-playback --concrete-playback=print %s"
                % (feat, target, feat, h.name, 2 * h.timeout, unwindset(h)))
-        sh(cmd, cwd=HARNESS, timeout=2 * h.timeout + 600, out=outlog)
+        # the driver itself parses CBMC's full JSON trace for playback: give it room (measured: 14 GB is not
+        # enough for the der harnesses), and run fewer of them at once
+        sh(cmd, cwd=HARNESS, timeout=2 * h.timeout + 600, out=outlog, mem_kb=3 * MEM_KB)
         txt = open(outlog, errors="replace").read()
         return h.name, parse_playback(txt).get(h.name, [])
 
-    with ThreadPoolExecutor(max_workers=max(1, JOBS // 2)) as ex:
+    with ThreadPoolExecutor(max_workers=max(1, JOBS // 4)) as ex:
         for name, tapes in ex.map(one, hs):
             results[name] = {"tapes": tapes}
     return results
@@ -386,6 +388,10 @@ def main():
     if seed:
         import random
         random.Random(seed).shuffle(hs)
+    devcap = int(os.environ.get("VERIF_DEV_TIMEOUT", "0") or 0)   # development aid: cap every harness timeout
+    if devcap:
+        for h in hs:
+            h.timeout = min(h.timeout, devcap)
     byname = {h.name: h for h in hs}
     log("[%s] tier=%s harnesses=%d jobs=%d" % (prop, a.tier, len(hs), JOBS))
 
